@@ -92,7 +92,7 @@ func checkWriterRun(r *concRun) (fails []schedFailure, nt map[string]bool, label
 		// C09: the values carried by the emitted commit are the successive folds (absolute, as puts)
 		final := map[string]decodedOp{}
 		for _, op := range decodeCommitOps(rc) {
-			if op.Col == "a" || op.Col == "m" || op.Col == "s" {
+			if op.Col == "a" || op.Col == "m" || op.Col == "s" || op.Col == "x" {
 				if op.Type == commitMerge {
 					add("C09", "commit #%d (block %d, task %d) carries a merge DELTA for column %s row %d instead of the merged value", rc.Seq, rc.Chunk, rc.Task, op.Col, op.Off)
 				}
@@ -111,10 +111,11 @@ func checkWriterRun(r *concRun) (fails []schedFailure, nt map[string]bool, label
 			}
 			ci := r.P.Init.Sch.col(op.Col)
 			want := row[ci]
-			ok := want.Has && ((op.Col == "s" && want.V.S == op.Str) || (op.Col != "s" && int64(want.V.B) == op.Int))
+			isStr := op.Col == "s" || op.Col == "x"
+			ok := want.Has && ((isStr && want.V.S == op.Str) || (!isStr && int64(want.V.B) == op.Int))
 			if !ok {
 				add("C09", "commit #%d (block %d, task %d) carries %s=%v for row %d; folding the committed deltas in apply order gives %s", rc.Seq, rc.Chunk, rc.Task, op.Col,
-					map[bool]any{true: op.Str, false: op.Int}[op.Col == "s"], op.Off, renderCell(r.P.Init.Sch.Cols[ci].Kind, want))
+					map[bool]any{true: op.Str, false: op.Int}[isStr], op.Off, renderCell(r.P.Init.Sch.Cols[ci].Kind, want))
 			}
 		}
 	}
